@@ -20,6 +20,7 @@ Section Sim.
   Hypothesis Hrfull : forall n s f, Rel s f -> agree (o_rfull O1 n s) (o_rfull O2 n f).
 
   Variables max_array max_bulk : Z.
+  Variable max_depth : N.
 
   Ltac step H s f HR r s1 f1 HR1 :=
     let r2 := fresh "r" in let E := fresh "E" in
@@ -70,10 +71,10 @@ Section Sim.
     step IH s0 f0 HR0 r1 s1 f1 HR1. destruct r1; fin.
   Qed.
 
-  Lemma decode_sim fuel : forall s f, Rel s f ->
-    agree (decode S1 O1 max_array max_bulk fuel s) (decode S2 O2 max_array max_bulk fuel f).
+  Lemma decode_sim fuel : forall d s f, Rel s f ->
+    agree (decode S1 O1 max_array max_bulk max_depth fuel d s) (decode S2 O2 max_array max_bulk max_depth fuel d f).
   Proof.
-    induction fuel as [|fuel IH]; intros s f HR; cbn [decode]; [fin|].
+    induction fuel as [|fuel IH]; intros d s f HR; cbn [decode]; [fin|].
     step Hpeek s f HR r0 s0 f0 HR0. destruct r0 as [b|e]; [|fin].
     destruct (is_type_byte b); [|apply decode_inline_sim; exact HR0].
     pose proof (Hrbyte s0 f0 HR0) as [_ HR1].
@@ -89,25 +90,26 @@ Section Sim.
     destruct r1 as [n|e]; [|fin].
     destruct (n <? -1)%Z; [fin|]. destruct (n >? max_array)%Z; [fin|].
     destruct (n =? -1)%Z; [fin|].
-    step (elems_sim _ _ IH (Z.to_nat n)) s1 f1 HR2 r2 s2 f2 HR3.
+    destruct (max_depth <=? d); [fin|].
+    step (elems_sim _ _ (IH (d + 1)) (Z.to_nat n)) s1 f1 HR2 r2 s2 f2 HR3.
     destruct r2; fin.
   Qed.
 
   Lemma decode_all_sim depth msgs : forall s f, Rel s f ->
-    fst (decode_all S1 O1 max_array max_bulk msgs depth s) = fst (decode_all S2 O2 max_array max_bulk msgs depth f).
+    fst (decode_all S1 O1 max_array max_bulk max_depth msgs depth s) = fst (decode_all S2 O2 max_array max_bulk max_depth msgs depth f).
   Proof.
     induction msgs as [|m IH]; intros s f HR; cbn [decode_all]; [reflexivity|].
-    step (decode_sim depth) s f HR r0 s0 f0 HR0. destruct r0 as [v|e]; [|reflexivity].
+    step (decode_sim depth 0) s f HR r0 s0 f0 HR0. destruct r0 as [v|e]; [|reflexivity].
     specialize (IH s0 f0 HR0).
-    destruct (decode_all S1 O1 max_array max_bulk m depth s0) as [[vs1 e1] s2].
-    destruct (decode_all S2 O2 max_array max_bulk m depth f0) as [[vs2 e2] f2].
+    destruct (decode_all S1 O1 max_array max_bulk max_depth m depth s0) as [[vs1 e1] s2].
+    destruct (decode_all S2 O2 max_array max_bulk max_depth m depth f0) as [[vs2 e2] f2].
     cbn [fst] in *. congruence.
   Qed.
 End Sim.
 
 (* the chunked entry point equals the flat entry point for every buffer size, oracle and end error *)
-Theorem chunking_independent max_array max_bulk B szs endv data : 1 <= B ->
-  decode_all_chunked max_array max_bulk B szs endv data = decode_all_flat max_array max_bulk B endv data.
+Theorem chunking_independent max_array max_bulk max_depth B szs endv data : 1 <= B ->
+  decode_all_chunked max_array max_bulk max_depth B szs endv data = decode_all_flat max_array max_bulk max_depth B endv data.
 Proof.
   intros HB. unfold decode_all_chunked, decode_all_flat.
   set (F := S (N.to_nat (lenN data))).
@@ -120,8 +122,8 @@ Proof.
                 (fun s f H => rslice_refines B HB F s f H (fun _ => I))
                 (fun s f H => rbytes_refines B HB F s f H ltac:(unfold F; lia))
                 (fun n s f H => rfull_refines B HB F n s f H)
-                max_array max_bulk F F s0 f0 HR) as Hsim.
-  destruct (decode_all crd _ _ _ F F s0) as [[vs1 e1] s2].
-  destruct (decode_all frd _ _ _ F F f0) as [[vs2 e2] f2].
+                max_array max_bulk max_depth (depth_fuel max_depth) F s0 f0 HR) as Hsim.
+  destruct (decode_all crd _ _ _ _ F _ s0) as [[vs1 e1] s2].
+  destruct (decode_all frd _ _ _ _ F _ f0) as [[vs2 e2] f2].
   cbn [fst] in Hsim. inversion Hsim. reflexivity.
 Qed.
